@@ -3,7 +3,7 @@ package main
 // Leg T driver for C14 (translation, reading frames, amino acid names): every event is one call of
 // a real sequtil function recorded at its return (panic: true when it panicked). Trace_Amino.tla judges.
 //
-//	vh amino-drive <out.ndjson> <maxlen> <maxframe>
+//	vh amino-drive <out.ndjson> <maxlen> <maxframe> [part nparts]
 //	vh amino-exec  <requests.json> <out.ndjson>          re-executes recorded calls (replay)
 
 import (
@@ -109,7 +109,7 @@ func aminoCall(r aminoReq) any {
 }
 
 func aminoDrive(args []string) error {
-	if err := need(args, 3, "amino-drive <out.ndjson> <maxlen> <maxframe>"); err != nil {
+	if err := need(args, 3, "amino-drive <out.ndjson> <maxlen> <maxframe> [part nparts]"); err != nil {
 		return err
 	}
 	maxLen, _ := strconv.Atoi(args[1])
@@ -118,7 +118,18 @@ func aminoDrive(args []string) error {
 	if err != nil {
 		return err
 	}
-	do := func(r aminoReq) { tw.emit(aminoCall(r)) }
+	part, nparts := 0, 1
+	if len(args) >= 5 {
+		part, _ = strconv.Atoi(args[3])
+		nparts, _ = strconv.Atoi(args[4])
+	}
+	n := 0
+	do := func(r aminoReq) {
+		if n%nparts == part {
+			tw.emit(aminoCall(r))
+		}
+		n++
+	}
 	v := 0
 	tr := func(src []int) {
 		d := dstVars[v%len(dstVars)]
